@@ -53,9 +53,11 @@ MANIFEST = dict(
 )
 
 INDENTS = [0, 1, 2, 4]
-CRIT = ['"', "\\", "\n", "\t", "\r", "\x00", "\x1f", "\x08", "\x0c", "\x7f", "/", "é", "€", " ", "\U0001F600", "a", "b", " ", ",", ":", "{", "]", "u", "0"]
+CRIT = ['"', "\\", "\n", "\t", "\r", "\x00", "\x1f", "\x08", "\x0c", "\x7f", "/", "é", "€", " ", "\U0001F600", "a", "b", " ", ",", ":", "{", "]", "u", "0",
+        # invisible / non-printable characters inside and above the BMP (str.isprintable() is False for all of them)
+        "\xa0", "\u200b", "\u2028", "\ufeff", "\U000E0067", "\U000F0004", "\U0010FFFF"]
 WORDS = ["null", "true", "false", "NaN", "Infinity", "None", "True", "1", "-0", "1.5", "[]", "{}", "", "\\u0041", "\\n", '\\"', "k", "v", "x y"]
-KEYS = ["a", "b", "C", "k", "v", "name", "id", 'q"', "b\\s", "n\nl", "é", "", " ", "null", "\t"]
+KEYS = ["a", "b", "C", "k", "v", "name", "id", 'q"', "b\\s", "n\nl", "é", "", " ", "null", "\t", "{id}", "{{x}}", "{0}", "%s", "}"]
 FLOATS = [0.5, 1.5, -2.25, 1e100, 1e-7, 0.1, 3.0, -1e-300, 123456.789, 1e16, 5e-324]
 INTS = [0, 1, -1, 7, 10, -42, 255, 2**31, -(2**63), 10**30, 100]
 
